@@ -1,7 +1,7 @@
 """C01 — loading and inspecting arbitrary bytes is memory-safe and terminates.
 
-Proof (Props/C01.lean, helper lemmas Lemmas/LoadSafety.lean; for ALL byte strings, both stream kinds,
-eager and lazy, any stream state, any previous object):
+Proof (Props/C01.lean, helper lemmas Lemmas/LoadSafety.lean + Lemmas/Inspect.lean; for ALL byte strings,
+both stream kinds, eager and lazy, any stream state, any previous object):
  * `load_total` / `load_total_anyStream`: the loader model, whose every buffer access is a checked
    read, never faults (also with an address translation table);
  * `load_inv` (`secLoad_inv`, `segLoad_inv`): every section/segment of the result satisfies
@@ -15,13 +15,36 @@ eager and lazy, any stream state, any previous object):
    free_data() with arbitrary indices keep the invariants and the allocation bound (lazy loads mutate);
  * `getString_total`: the string reader is safe on every loaded section for EVERY 32-bit index and
    returns a NUL-free run of input bytes inside [0,size);
+ * INSPECTION (Model/Inspect.lean = what Driver/Load.lean executes for the ops notes / segnotes / dyn /
+   syms / modinfo / dump):  `inspect_total`: on an object satisfying `InspInv` = the loader invariant
+   `ObjInv` + valid segment member lists `MembersOk` (`load_inspInv`: `load_objInv` + `load_members`,
+   Lemmas/LoadMembers.lean), input length <= 2^32-3 (`InputBound`, the bound C13's `get_note_total` needs), EVERY
+   query -- header/section/segment getters and data, free_data, `str i k`, `noteNum i`/`note i k`,
+   `segNoteNum j`/`segNote j k`, `dynNum i`/`dyn i k`, `symNum i`/`sym i k`, `modinfo i`/`modinfoGet i k`/
+   `modinfoByName i f`, `validate`, `dump` -- with ARBITRARY section, segment and entry indices returns
+   without a fault and re-establishes `InspInv`; `inspect_seq_total` / `load_inspect_total`: hence every
+   finite query sequence after every load.  `dump_total`: the read trace of elfio_dump.hpp (segment_headers:
+   `sections[member]` exists for every member of every segment; symbol tables:
+   every symbol of every SHT_SYMTAB/DYNSYM section; notes: every note of every SHT_NOTE section and PT_NOTE
+   segment incl. every descriptor byte; `.modinfo`; dynamic tags up to DT_NULL; first 64 data bytes of every
+   section and segment).  It composes `load_inv`/`getData_inv` with the accessor families' models:
+   notes = C13.get_note_total via `LoadedSec -> SrcOk`; NEW total-safety theorems for ARBITRARY content /
+   sh_entsize / sh_size / sh_link (the families' own theorems assume well-formed tables):
+   `Inspect.dyn_entriesNum_total`, `Inspect.dyn_getEntry_total` (Model/Dynamic.lean),
+   `Inspect.sym_num_total`, `Inspect.sym_get_total` (Model/Symbols.lean), `Inspect.modinfo_total`
+   (Model/Modinfo.lean; needs the loader's NUL terminator), `Inspect.str_sites_total` (C08's site-tied
+   get_string).  The accessor models' own `SecBuf.getData` is the identity after `sections[i]->get_data()`
+   (`Inspect.getData_of_settled`, `secGetData_settled`).
  * `LoadedSec.size_lt / resident_facts / rdRange_ok`, `exposes_only_file_bytes`: what the accessor
    families' `*_total` theorems instantiate.
  Remark: `validate` (Model/Validate.lean) is a total pure function — nothing to prove.
-Partial: symbol/note/dynamic/modinfo readers and `dump` are the accessor families' theorems (C13, C12,
-C14, C18 ...) instantiated with `LoadedSec`; here they are covered by correspondence only.  The theorems
-are about the checked-memory model; the implementation side of memory safety is observed by sanitizers
-on the generated inputs.  Termination is Lean's (all model functions are structurally recursive).
+Correspondence only (not in the theorems): the TEXT the dump facility prints (dump::header / section_headers /
+segment_header lines are getters only);
+the symbol accessor's constructor (`find_hash_section`, getters only) and the by-name / by-value / hash
+lookups (C09/C18); `ifstream` vs `istringstream` differences.  The theorems are about the checked-memory
+model; the implementation side of memory safety is observed by sanitizers on the generated inputs.
+Termination is Lean's (all model functions are structurally recursive; the fuel of the note walker, the
+dynamic count loop and the modinfo parser is proved sufficient).
 Correspondence: harness/load.cpp (real code under ASan/UBSan/_GLIBCXX_ASSERTIONS, allocation
 log through operator new[](nothrow)) vs Driver/Load.lean.  Oracle: no FAULT anywhere, every logged
 allocation <= len+1 (== len+1 is the open known finding F11: the NUL terminator).
@@ -38,17 +61,78 @@ THEOREMS = ["ElfioVerif.C01.load_total", "ElfioVerif.C01.load_total_anyStream", 
             "ElfioVerif.C01.getString_total", "ElfioVerif.C01.exposes_only_file_bytes",
             "ElfioVerif.C01.seg_exposes_only_file_bytes",
             "ElfioVerif.C01.LoadedSec.size_lt", "ElfioVerif.C01.LoadedSec.resident_facts",
-            "ElfioVerif.C01.LoadedSec.rdRange_ok"]
-SITES = ["conv", "is_sect_in_seg", "load_s", "sec32_load", "sec64_load", "seg32_load", "seg64_load", "validate", "find_prog"]
+            "ElfioVerif.C01.LoadedSec.rdRange_ok",
+            "ElfioVerif.C01.inspect_total", "ElfioVerif.C01.inspect_seq_total", "ElfioVerif.C01.load_inspect_total",
+            "ElfioVerif.C01.dump_total", "ElfioVerif.C01.load_objInv", "ElfioVerif.C01.load_inspInv",
+            "ElfioVerif.load_members", "ElfioVerif.Inspect.dumpSegMembers_total",
+            "ElfioVerif.Inspect.notes_total", "ElfioVerif.Inspect.dyn_entriesNum_total",
+            "ElfioVerif.Inspect.dyn_getEntry_total", "ElfioVerif.Inspect.sym_num_total",
+            "ElfioVerif.Inspect.sym_get_total", "ElfioVerif.Inspect.modinfo_total",
+            "ElfioVerif.Inspect.str_sites_total", "ElfioVerif.Inspect.secGetData_settled",
+            "ElfioVerif.Inspect.getData_of_settled"]
+SITES = ["conv", "is_sect_in_seg", "load_s", "sec32_load", "sec64_load", "seg32_load", "seg64_load", "validate", "find_prog",
+         "note_walk", "note_get", "note_num", "dyn_num", "dyn_get", "dyn32_get", "dyn64_get", "dynstr_get", "dyn_strtab",
+         "sym_num", "sym32_get", "sym64_get", "str_get", "symstr_get", "mod_loop", "mod_rec", "mod_advance", "mod_value",
+         "mod_get", "mod_num"]
 RULE = ("byte strings: random bytes behind each of the four valid idents; structure-aware mutations "
         "(tools/elfspec.mutate: boundary values 0,1,len-1,len,len+1,2^31,2^32-1,2^63,2^64-1 in header/table "
-        "fields, bit flips, zeroed runs, truncation) of encoder-built images and of small bundled examples; the "
-        "archived crash-* files; x {eager,lazy} x {string,file}; each followed by hdr, every section/segment "
-        "(+1 beyond), section-name string lookups at boundary indices, validate, dump. non-trivial = load "
-        "returned true or at least one section was created; distinct by md5")
+        "fields, bit flips, zeroed runs, truncation) of encoder-built images and of small bundled examples; "
+        "encoder-built images with TYPED tables (elfspec.random_model(typed=..): SHT_NOTE sections and PT_NOTE "
+        "segments over them, SHT_DYNAMIC, SHT_SYMTAB/DYNSYM + SHT_STRTAB, .modinfo; contents from the *_blob "
+        "builders: well-formed records plus field-level corruptions -- note namesz/descsz in {0,1,3,4,5,7,rest-12,"
+        "rest-11,rest,2^31,2^32-1,..}, all residues mod 4, last note cut at structural boundaries +-1, trailing "
+        "garbage; dynamic with/without DT_NULL, string offsets in/out of range; symbol st_name in/out of range; "
+        "string tables unterminated/empty; modinfo without '=', without final NUL, NUL runs, empty; sh_entsize in "
+        "{record size,0,1,size-1,size+1,2*size,2^31,max}, sh_link valid/self/out of range/wrapping mod 2^16), intact "
+        "or mutated; one-note small scope (namesz,descsz in [0,9]^2 x every body size; sampled in quick, exhaustive "
+        "in thorough) as section and as segment; the archived crash-* files; x {eager,lazy} x {string,file}; each "
+        "followed by hdr, every section/segment (+1 beyond), string lookups at boundary indices, the accessor op "
+        "matching each section/segment type (notes, segnotes, dyn, syms, modinfo: count + boundary indices "
+        "{0,1,n-1,n,n+1,size-1,size,2^32-1,2^64-1}), accessors on sections of other types, indices beyond the tables, "
+        "dump before or after them, validate. non-trivial = load returned true or at least one section was created; "
+        "distinct by md5")
 ASSUMPTIONS = ["new(nothrow) succeeds for requests <= len+1", "inputs shorter than 2^64 bytes (hypothesis of the allocation bound only)"]
 TRUSTED = ["ASan/UBSan/_GLIBCXX_ASSERTIONS as fault detectors on the implementation side"]
 KEEP_FIRST = 1
+
+
+def sec_table(img, cap=64):
+    """(section types+names, segment types) as the (possibly corrupted) tables of the image say"""
+    try:
+        ns, ng = counts(img)
+        if ns > cap or ng > cap:
+            return [], []
+        d = elfspec.decode(img)
+        if d is None:
+            return [], []
+        return [(s["sh_type"], s.get("name"), s["sh_size"]) for s in d["sections"]], [g["p_type"] for g in d["segments"]]
+    except Exception:
+        return [], []
+
+
+ACC_OPS = ["notes", "dyn", "syms", "modinfo"]
+
+
+def typed_lines(img, rng, p_any=0.12):
+    """accessor ops chosen by section/segment type as the image declares it, a few accessors on sections of
+    any other type (the property speaks about every reader on every section), indices beyond the tables"""
+    secs, segs = sec_table(img)
+    L = []
+    for k, (ty, name, size) in enumerate(secs[:24]):
+        if ty == elfspec.SHT_NOTE: L.append(f"notes {k}")
+        if ty == elfspec.SHT_DYNAMIC: L.append(f"dyn {k}")
+        if ty in (elfspec.SHT_SYMTAB, elfspec.SHT_DYNSYM): L.append(f"syms {k}")
+        if name is not None and name.startswith(b".modinf") and size <= 16384: L.append(f"modinfo {k}")
+        if ty == elfspec.SHT_STRTAB:
+            for idx in (0, 1, 2, 5, 4294967295): L.append(f"str {k} {idx}")
+        if rng.random() < p_any and size <= 4096:     # (the modinfo parser MODEL is quadratic in the section size)
+            L.append(f"{rng.choice(ACC_OPS)} {k}")
+    for j, ty in enumerate(segs[:10]):
+        if ty == elfspec.PT_NOTE or rng.random() < p_any:
+            L.append(f"segnotes {j}")
+    if rng.random() < 0.3:
+        L += [f"{rng.choice(ACC_OPS)} {len(secs) + rng.choice([0, 1, 70000])}", f"segnotes {len(segs) + rng.choice([0, 1])}"]
+    return L
 
 
 def inspect_lines(img, rng):
@@ -58,13 +142,57 @@ def inspect_lines(img, rng):
         for idx in (0, 1, len(img), 4294967295):
             if rng.random() < 0.3:
                 L.append(f"str {k} {idx}")
+    T = typed_lines(img, rng)
     if ns <= 1500:          # validate() is quadratic in the section count: 65535 zeroed sections
-        L += ["validate", "dump"]   # take minutes under ASan (it does return); not a termination issue
+        # take minutes under ASan (it does return); not a termination issue.  dump before and after the
+        # accessor ops: lazily loaded sections are made resident by whichever comes first
+        L += (["dump"] + T if rng.random() < 0.5 else T + ["dump"]) + ["validate"]
+    else:
+        L += T
     return L
 
 
+def note_image(cls, enc, body, as_segment, pad=0):
+    """minimal image: ELF header, `body`, `pad` foreign bytes, section headers (null, SHT_NOTE over `body`),
+    optionally one PT_NOTE program header over the same bytes"""
+    eh, shs, phs = elfspec.EHSIZE[cls], elfspec.SHSIZE[cls], elfspec.PHSIZE[cls]
+    off = eh + (phs if as_segment else 0)
+    shoff = off + len(body) + pad
+    ident = b"\x7fELF" + bytes([1 if cls == 32 else 2, 1 if enc == "lsb" else 2, 1]) + bytes(9)
+    ehdr = {"e_type": 1, "e_machine": 62, "e_version": 1, "e_entry": 0, "e_phoff": eh if as_segment else 0, "e_shoff": shoff,
+            "e_flags": 0, "e_ehsize": eh, "e_phentsize": phs, "e_phnum": 1 if as_segment else 0, "e_shentsize": shs,
+            "e_shnum": 2, "e_shstrndx": 0}
+    z = {n: 0 for n, _ in elfspec.SHDR[cls]}
+    sh = dict(z, sh_type=elfspec.SHT_NOTE, sh_offset=off, sh_size=len(body), sh_addralign=4)
+    img = ident + elfspec.pack(elfspec.EHDR[cls], ehdr, enc)
+    if as_segment:
+        img += elfspec.pack(elfspec.PHDR[cls], {"p_type": elfspec.PT_NOTE, "p_flags": 4, "p_offset": off, "p_vaddr": 0, "p_paddr": 0,
+                                                "p_filesz": len(body), "p_memsz": len(body), "p_align": 4}, enc)
+    img += body + bytes([0xEE]) * pad + elfspec.pack(elfspec.SHDR[cls], z, enc) + elfspec.pack(elfspec.SHDR[cls], sh, enc)
+    return img
+
+
+def note_scope_cases(rng, tier):
+    """small scope, one note: every (namesz, descsz) in [0,9]^2 x every body size from 0 to the full encoding + 2
+    (the tail of the body is foreign bytes) -- all of it in the thorough tier, a random sample in the quick tier"""
+    scope = []
+    for nsz in range(10):
+        for dsz in range(10):
+            full = 12 + elfspec.up4(nsz) + elfspec.up4(dsz)
+            for size in range(0, full + 3):
+                scope.append((nsz, dsz, size))
+    pick = scope if tier != "quick" else rng.sample(scope, 70)
+    for t, (nsz, dsz, size) in enumerate(pick):
+        cls, enc = CFGS[t % 4]
+        seg = (t // 4) % 2 == 1
+        img = note_image(cls, enc, elfspec.note_scope(enc, nsz, dsz, size), seg, pad=rng.choice([0, 0, 16]))
+        lazy = rng.choice([0, 1])
+        L = [f"load {hx(img)} lazy={lazy} kind=str", "notes 1"] + (["segnotes 0"] if seg else []) + ["dump", "sec 1"]
+        yield {"id": f"note-{nsz}-{dsz}-{size}-{t % 4}{'g' if seg else 's'}", "lines": L, "meta": {"img": img}}
+
+
 def gen_cases(rng, tier):
-    n = 150 if tier == "quick" else 3000
+    n = 260 if tier == "quick" else 3000
     ex_small = [b for f, b in examples(20000)]
     crash = [(f, b) for f, b in examples() if f.startswith("crash")]
     k = 0
@@ -74,15 +202,22 @@ def gen_cases(rng, tier):
     for i in range(n):
         cls, enc = CFGS[i % 4]
         r = rng.random()
-        if r < 0.15:
+        if r < 0.10:
             ident = b"\x7fELF" + bytes([1 if cls == 32 else 2, 1 if enc == "lsb" else 2, 1]) + bytes(9)
             img = ident + bytes(rng.randrange(256) for _ in range(rng.choice([0, 10, 36, 48, 64, 200, 600])))
-        elif r < 0.75 or not ex_small:
+        elif r < 0.55:
+            # typed tables (notes, dynamic, symbols + strings, modinfo; PT_NOTE over note sections) whose contents
+            # carry their own field-level corruptions; the image around them intact, or mutated as the others
+            img = elfspec.encode(elfspec.random_model(rng, cls, enc, typed=0.65))
+            if rng.random() < 0.5:
+                img = elfspec.mutate(rng, img, n=rng.choice([1, 1, 2]))
+        elif r < 0.82 or not ex_small:
             img = elfspec.mutate(rng, elfspec.encode(elfspec.random_model(rng, cls, enc)))
         else:
             img = elfspec.mutate(rng, rng.choice(ex_small))
         lazy = rng.choice([0, 1]); kind = rng.choice(["str", "str", "file"])
         yield {"id": f"m{i}", "lines": [f"load {hx(img)} lazy={lazy} kind={kind}"] + inspect_lines(img, rng), "meta": {"img": img}}
+    yield from note_scope_cases(rng, tier)
     # F11 witness: a section covering the whole file
     m = elfspec.random_model(rng, 64, "lsb", nsec=2, nseg=0)
     img = bytearray(elfspec.encode(m))
@@ -123,4 +258,13 @@ def classify(case, out):
     ks = [x for x in case["lines"][0].split()[2:]]
     ks.append("loaded" if out and out[0].startswith("load=true") else "rejected")
     if any(o.startswith("idx=") and "data=null" not in o for o in out): ks.append("has-data")
+    import re
+    for o in out:
+        m = re.match(r"(notes|segnotes|dyn|syms|modinfo) n=(\d+)", o)
+        if m:
+            ks.append(m.group(1)); ks.append(m.group(1) + ("-nonempty" if int(m.group(2)) else "-empty"))
+            if m.group(1) in ("notes", "segnotes") and re.search(r":\d+/[0-9a-f-]+/[0-9a-f]+/", o): ks.append("note-desc-read")
+            if m.group(1) == "dyn" and ":true/" in o: ks.append("dyn-entry-read")
+            if m.group(1) == "syms" and ":true/" in o: ks.append("sym-read")
+    if any(o == "dump=ok" for o in out): ks.append("dump")
     return ks
